@@ -29,6 +29,8 @@ type op struct {
 	K      string `json:"k"`              // reg|vote
 	W      int    `json:"w"`              // wallet 1..3
 	By     int    `json:"by,omitempty"`   // reg: registering wallet's own client (0) or another wallet's client (its number)
+	Vic    int    `json:"vic,omitempty"`  // reg: the request names this other account (wallet slot) as client_id; keys and sender stay wallet W's
+	PK     string `json:"pk,omitempty"`   // reg with vic: public_key of the sender (default) | victim | neither
 	Flaw   string `json:"flaw,omitempty"` // reg: dupid|dupkey|t1|tbig|scheme|badkey|pk ; vote: json|big|zero|nosig
 	S      int    `json:"s,omitempty"`    // vote: sender = signer index 1..n of wallet SW (0 = stranger)
 	SW     int    `json:"sw,omitempty"`   // vote: the wallet the sender belongs to (normally = W)
@@ -236,6 +238,21 @@ func run(h hist) result {
 				desc["public_key"] = ws[o.W%len(ws)+1].pk
 				keysOK = false
 			}
+			walletTok := o.W
+			if o.Vic != 0 { // the sender asks for a wallet under somebody else's account id
+				desc["client_id"] = ws[o.Vic].id
+				walletTok = o.Vic
+				switch o.PK {
+				case "victim":
+					desc["public_key"] = ws[o.Vic].pk
+				case "neither":
+					for k, x := range ws {
+						if k != o.W && k != o.Vic {
+							desc["public_key"] = x.pk
+						}
+					}
+				}
+			}
 			sender := w.id
 			clientTok := o.W
 			if o.By != 0 {
@@ -246,11 +263,11 @@ func run(h hist) result {
 			txn := sc.Txn(encryption.Hash(fmt.Sprintf("ms txn %d", i)), sender, multisigsc.Address, 0, 0)
 			ctx := sc.NewCtx(tm, int64(i+2), txn)
 			_, err := contract.Execute(txn, multisigsc.RegisterFuncName, input, ctx)
-			res.ops = append(res.ops, fmt.Sprintf("MsRegister %d %d %s %d %s", clientTok, o.W, vh.List(toks), required, vh.Bool(keysOK)))
+			res.ops = append(res.ops, fmt.Sprintf("MsRegister %d %d %s %d %s", clientTok, walletTok, vh.List(toks), required, vh.Bool(keysOK)))
 			if err != nil {
 				res.outs = append(res.outs, "MsFail")
 				res.kinds["register-refused"]++
-				if o.Flaw == "" && o.By == 0 && !registered[o.W] {
+				if o.Flaw == "" && o.By == 0 && o.Vic == 0 && !registered[o.W] {
 					res.fail("valid-wallet-refused")
 				}
 				continue
@@ -258,6 +275,12 @@ func run(h hist) result {
 			ct.Commit(base, tm)
 			res.outs = append(res.outs, "MsRegistered")
 			res.kinds["register-ok"]++
+			if o.Vic != 0 {
+				// registration accepted => client_id == sender == Hash(public_key)
+				res.fail("wallet-registered-under-another-accounts-id")
+				res.c04("wallet-registered-under-another-accounts-id:multisig")
+				continue
+			}
 			if o.Flaw != "" || o.By != 0 || registered[o.W] {
 				res.fail("invalid-wallet-registered")
 			}
@@ -483,6 +506,8 @@ func genHist(r *vh.Rand) hist {
 	} else if r.Chance(1, 6) {
 		h.Wallets = []walletDesc{{2, 2}, {r.Range(2, 4), r.Range(4, 5)}}
 	}
+	// slot 3: an account with threshold keys that never registers a wallet of its own; slot 4: a plain funded account
+	h.Wallets = append(h.Wallets, walletDesc{2, 3}, walletDesc{2, 2})
 	// per proposal a small committee votes (so that repeats and executions are frequent), chosen with
 	// a bias to the high-index signers
 	committee := map[[2]int][]int{}
@@ -603,6 +628,20 @@ func genHist(r *vh.Rand) hist {
 			delete(props, ref)
 			delete(committee, ref)
 		}
+		// 1 history in 4: account 3 (or wallet 1's owner, who already has a wallet) asks for a wallet under another
+		// account's id (plain account 4, or a registered wallet's) and its signers then vote transfers out of it
+		if i == n/2 && r.Chance(1, 4) {
+			att := []int{3, 3, 3, 1}[r.Intn(4)]
+			vic := []int{4, 4, 2, 1}[r.Intn(4)]
+			if vic == att {
+				vic = 4
+			}
+			h.Ops = append(h.Ops, op{K: "reg", W: att, Vic: vic, PK: []string{"", "", "victim", "neither"}[r.Intn(4)]})
+			for s := 1; s <= h.Wallets[att-1].T+1 && s <= h.Wallets[att-1].N; s++ {
+				now += int64(r.Range(0, 20))
+				h.Ops = append(h.Ops, op{K: "vote", W: vic, SW: att, S: s, Now: now, P: 7, To: r.Intn(2), Amount: 700, Sig: "ok"})
+			}
+		}
 	}
 	return h
 }
@@ -628,7 +667,7 @@ func main() {
 	rep := vh.NewReport("multisig", prop, o)
 	rep.Rule = "histories on the real multisigsc.Execute with real BLS threshold key shares (GenerateThresholdKeyShares, one set per wallet shape and run): two wallets, mostly 2..4-of-10..20 and 2..5-of-16..20 " +
 		"(threshold ids are hex: signers #10-#15 have ids a-f, #16-#20 ids 10-14), else 2-of-3 and 3-of-4 or 2-of-2 and t-of-4/5; per proposal a committee of t..t+2 signers biased to the high-index ones votes, " +
-		"registered by their own client (1 in 6 first tried with a flaw: duplicate id/key, threshold 1 or > n, more than 20 signers, other scheme, bad key, foreign public key, other client), then 6-30 votes " +
+		"registered by their own client, plus account 3 (threshold keys, no wallet) and plain account 4; 1 history in 4 has account 3 (or wallet 1's owner) request a wallet under account 4's or a registered wallet's id (public key of the sender / the victim / neither) followed by its signers' votes on transfers out of that account; (1 in 6 registrations first tried with a flaw: duplicate id/key, threshold 1 or > n, more than 20 signers, other scheme, bad key, foreign public key, other client), then 6-30 votes " +
 		"on 3 proposal ids per wallet by random signers (repeats frequent), 1 in 3 flawed: signature over another amount, made with another share, garbage, stranger, signer of the other wallet, " +
 		"other amount/recipient than the proposal, malformed/oversized/zero-amount/unsigned payload; block times advance, go back, jump half a week, or aim at creation + one week ± 1 s; the transaction's own creation date is chosen independently of the block time (equal, ±1-10 s, half a week earlier, or just before the proposal's expiry). " +
 		"non-trivial = a proposal executed, a repeat or post-execution vote was seen and a vote was refused; distinct by full history"
@@ -677,6 +716,12 @@ func main() {
 	handle(hist{Wallets: []walletDesc{{2, 3}, {3, 4}}, Ops: []op{{K: "reg", W: 1}, {K: "reg", W: 1}, v(1, 1, 1000, 0), v(1, 1, 1001, 0), v(1, 2, 1002, 0), v(1, 3, 1003, 0),
 		v(1, 1, 2000, 1), v(1, 2, 2000+W-1, 1), v(1, 1, 3000, 2), v(1, 2, 3000+W, 2), v(1, 2, 2999+W, 2),
 		v(1, 3, 1000+W+5, 0), v(1, 1, 1000+W+6, 0)}})
+	// directed: account 3 (own group key, own shares, no wallet of its own) asks for a wallet under the id of the plain
+	// account 4, its signers vote 700 tokens out of account 4; the same against the registered wallet 2
+	handle(hist{Wallets: []walletDesc{{2, 3}, {3, 4}, {2, 3}, {2, 2}}, Ops: []op{{K: "reg", W: 1}, {K: "reg", W: 2}, {K: "reg", W: 3, Vic: 4, PK: "victim"}, {K: "reg", W: 3, Vic: 4, PK: "neither"},
+		{K: "reg", W: 3, Vic: 4}, {K: "vote", W: 4, SW: 3, S: 1, Now: 1000, P: 0, To: 1, Amount: 700, Sig: "ok"}, {K: "vote", W: 4, SW: 3, S: 2, Now: 1001, P: 0, To: 1, Amount: 700, Sig: "ok"},
+		{K: "reg", W: 3, Vic: 2}, {K: "vote", W: 2, SW: 3, S: 1, Now: 1002, P: 0, To: 1, Amount: 700, Sig: "ok"}, {K: "vote", W: 2, SW: 3, S: 2, Now: 1003, P: 0, To: 1, Amount: 700, Sig: "ok"},
+		{K: "reg", W: 1, Vic: 4}}})
 	// directed: the deciding vote arrives in a block at/after the expiry but is dated before it by its sender
 	handle(hist{Wallets: []walletDesc{{2, 3}, {3, 4}}, Ops: []op{{K: "reg", W: 1}, v(1, 1, 1000, 0),
 		{K: "vote", W: 1, SW: 1, S: 2, Now: 1000 + W, TD: -5, P: 0, To: 1, Amount: 7, Sig: "ok"},
